@@ -19,6 +19,205 @@ type SessGen struct {
 	stmtN  int
 	// Searchable enables equality conditions on searchable columns in SELECT/UPDATE/DELETE (C09); SearchVals holds values written per table/column.
 	SearchVals map[string][]Val
+	// UsePool makes values written to searchable columns come from a small per-column pool (duplicates, prefixes, boundary lengths).
+	UsePool bool
+	pools   map[string][]Val
+	lastTag string
+}
+
+// poolVal draws a value for a searchable column from its pool.
+func (g *SessGen) poolVal(t TableSpec, c ColSpec) Val {
+	if g.pools == nil {
+		g.pools = map[string][]Val{}
+	}
+	k := t.Name + "." + c.Name
+	if g.pools[k] == nil {
+		r := g.R
+		var pool []Val
+		mk := func(b []byte) Val {
+			if c.AppType == fakepg.Text {
+				// keep text values valid UTF-8 and free of backslashes
+				s := make([]byte, len(b))
+				for i, x := range b {
+					s[i] = 'a' + x%26
+				}
+				return Val{Type: fakepg.Text, S: string(s)}
+			}
+			return Val{Type: fakepg.Bytea, B: b}
+		}
+		base := gen.Bytes(r, 12+r.Intn(20))
+		pool = append(pool, mk(base), mk(base[:len(base)-3]), mk(append(append([]byte{}, base...), 0x41, 0x42)), mk(gen.Bytes(r, 1)), mk(gen.Bytes(r, 33)), mk(gen.Bytes(r, 34)), mk(gen.Bytes(r, 200)), mk([]byte{}))
+		for i := 0; i < 3; i++ {
+			pool = append(pool, mk(gen.Bytes(r, 5+r.Intn(40))))
+		}
+		g.pools[k] = pool
+	}
+	p := g.pools[k]
+	return p[g.R.Intn(len(p))]
+}
+
+// searchVal picks a value to search for: mostly one that was written, sometimes absent / a prefix / empty.
+func (g *SessGen) searchVal(t TableSpec, c ColSpec) Val {
+	r := g.R
+	written := g.SearchVals[t.Name+"."+c.Name]
+	switch {
+	case len(written) > 0 && r.Intn(10) < 6:
+		return written[r.Intn(len(written))]
+	case g.UsePool && r.Intn(3) != 0:
+		return g.poolVal(t, c)
+	default:
+		v := GenVal(r, c.AppType, false)
+		return v
+	}
+}
+
+func searchCols(t TableSpec) []ColSpec {
+	var out []ColSpec
+	for _, c := range t.Cols {
+		if c.Kind == "search" {
+			out = append(out, c)
+		}
+	}
+	return out
+}
+
+// searchCond builds a condition over a searchable column.
+func (g *SessGen) searchCond(t TableSpec, c ColSpec, qual string, useParam bool, params *[]boundVal) string {
+	r := g.R
+	v := g.searchVal(t, c)
+	col := qual + c.Name
+	e := g.exprFor(v, useParam, params, c)
+	var cond string
+	tag := "search:"
+	switch r.Intn(6) {
+	case 0:
+		cond = e + " = " + col
+		tag += "value-on-the-left"
+	case 1:
+		cond = col + " <> " + e
+		tag += "ne"
+	default:
+		cond = col + " = " + e
+		tag += "eq"
+	}
+	if len(v.Bytes()) == 0 {
+		tag += ",empty-value"
+	}
+	g.lastTag = tag
+	idc := t.Cols[0]
+	switch r.Intn(6) {
+	case 0:
+		cond = "(" + cond + " and " + qual + "id > " + g.exprFor(Val{Type: fakepg.Int4, I: int64(r.Intn(4))}, useParam && r.Intn(2) == 0, params, idc) + ")"
+	case 1:
+		cond = "(" + cond + " or " + qual + "id = " + g.exprFor(Val{Type: fakepg.Int4, I: int64(1 + r.Intn(6))}, useParam && r.Intn(2) == 0, params, idc) + ")"
+	case 2:
+		if sc := searchCols(t); len(sc) > 1 {
+			c2 := sc[r.Intn(len(sc))]
+			v2 := g.searchVal(t, c2)
+			if len(v2.Bytes()) == 0 && !strings.Contains(g.lastTag, "empty-value") {
+				g.lastTag += ",empty-value"
+			}
+			cond = cond + " and " + qual + c2.Name + " = " + g.exprFor(v2, useParam, params, c2)
+		}
+	}
+	return cond
+}
+
+// SearchSelect generates a SELECT whose WHERE uses a searchable column (tables without one fall back to Select).
+func (g *SessGen) SearchSelect() Step {
+	r := g.R
+	t := g.table()
+	sc := searchCols(t)
+	if len(sc) == 0 {
+		return g.Select()
+	}
+	st := Step{Kind: "select", Table: t.Name}
+	var params []boundVal
+	useParam := r.Intn(2) == 0
+	alias, qual := "", ""
+	if r.Intn(3) == 0 {
+		alias, qual = " as s1", "s1."
+	}
+	var names []string
+	var items []string
+	for _, c := range t.Cols {
+		if c.Name == "id" || r.Intn(2) == 0 {
+			names = append(names, c.Name)
+			items = append(items, qual+c.Name)
+		}
+	}
+	sql := "select " + strings.Join(items, ", ") + " from " + t.Name + alias + " where " + g.searchCond(t, sc[r.Intn(len(sc))], qual, useParam, &params) + " order by " + qual + "id"
+	st.ResultCols = names
+	g.finish(&st, sql, params, len(items), true)
+	return st
+}
+
+// SearchJoin generates a two-table join with a condition on a searchable column (needs two tables).
+func (g *SessGen) SearchJoin() Step {
+	r := g.R
+	if len(g.Tables) < 2 {
+		return g.SearchSelect()
+	}
+	t1, t2 := g.Tables[0], g.Tables[1]
+	if r.Intn(2) == 0 {
+		t1, t2 = t2, t1
+	}
+	sc := searchCols(t1)
+	if len(sc) == 0 {
+		return g.SearchSelect()
+	}
+	st := Step{Kind: "select", Table: t1.Name}
+	var params []boundVal
+	c := sc[r.Intn(len(sc))]
+	on := "j1.id = j2.id"
+	if sc2 := searchCols(t2); len(sc2) > 0 && r.Intn(3) == 0 {
+		c2 := sc2[r.Intn(len(sc2))]
+		if c2.AppType == c.AppType {
+			on = "j1." + c.Name + " = j2." + c2.Name
+		}
+	}
+	sql := "select j1.id, j2.id, j1." + c.Name + " from " + t1.Name + " as j1 join " + t2.Name + " as j2 on " + on + " where " + g.searchCond(t1, c, "j1.", r.Intn(2) == 0, &params) + " order by j1.id, j2.id"
+	st.ResultCols = []string{"id", "id", c.Name}
+	g.finish(&st, sql, params, 3, true)
+	return st
+}
+
+// SearchWrite generates UPDATE/DELETE ... WHERE <searchable> = v.
+func (g *SessGen) SearchWrite() Step {
+	r := g.R
+	t := g.table()
+	sc := searchCols(t)
+	if len(sc) == 0 {
+		return g.Update()
+	}
+	var params []boundVal
+	useParam := r.Intn(2) == 0
+	if r.Intn(3) == 0 {
+		st := Step{Kind: "delete", Table: t.Name}
+		g.finish(&st, "delete from "+t.Name+" where "+g.searchCond(t, sc[r.Intn(len(sc))], "", useParam, &params), params, 0, false)
+		return st
+	}
+	st := Step{Kind: "update", Table: t.Name}
+	c := t.Cols[1+r.Intn(len(t.Cols)-1)]
+	v := g.colVal(t, c)
+	if c.Configured() && !v.Null {
+		st.Writes = append(st.Writes, Written{t.Name, c.Name, v})
+	}
+	if c.Kind == "search" && !v.Null {
+		k := t.Name + "." + c.Name
+		g.SearchVals[k] = append(g.SearchVals[k], v)
+	}
+	set := c.Name + " = " + g.exprFor(v, useParam, &params, c)
+	g.finish(&st, "update "+t.Name+" set "+set+" where "+g.searchCond(t, sc[r.Intn(len(sc))], "", useParam, &params), params, 0, false)
+	return st
+}
+
+// colVal draws a value for a column, honouring UsePool for searchable columns.
+func (g *SessGen) colVal(t TableSpec, c ColSpec) Val {
+	if g.UsePool && c.Kind == "search" && g.R.Intn(8) != 0 {
+		return g.poolVal(t, c)
+	}
+	return GenColVal(g.R, c)
 }
 
 // NewSessGen creates a generator.
@@ -47,6 +246,15 @@ func (g *SessGen) exprFor(v Val, useParam bool, params *[]boundVal, col ColSpec)
 
 func (g *SessGen) finish(st *Step, sql string, params []boundVal, nResultCols int, returnsRows bool) {
 	st.SQL = sql
+	st.Tag = g.lastTag
+	g.lastTag = ""
+	for _, p := range params {
+		b := p.v.Bytes()
+		if len(b) > 48 {
+			b = b[:48]
+		}
+		st.ParamDesc = append(st.ParamDesc, fmt.Sprintf("%s:%x", p.col.Name, b))
+	}
 	r := g.R
 	if len(params) == 0 && r.Intn(2) == 0 {
 		st.Proto = "simple"
@@ -178,7 +386,7 @@ func (g *SessGen) Insert() Step {
 			if c.Name == "id" {
 				v = Val{Type: fakepg.Int4, I: int64(id)}
 			} else {
-				v = GenColVal(r, c)
+				v = g.colVal(t, c)
 			}
 			if c.Configured() && !v.Null {
 				st.Writes = append(st.Writes, Written{t.Name, c.Name, v})
@@ -254,7 +462,7 @@ func (g *SessGen) Update() Step {
 		if r.Intn(3) != 0 {
 			continue
 		}
-		v := GenColVal(r, c)
+		v := g.colVal(t, c)
 		if c.Configured() && !v.Null {
 			st.Writes = append(st.Writes, Written{t.Name, c.Name, v})
 		}
